@@ -246,6 +246,32 @@ def _r7src(n):
     return "/tmp/mut7/%s/_out/%s" % (n[2:4], n[4])
 SRC_OVERRIDE.update({n: _r7src(n) for n in NEEDS if n.startswith("R7")})
 
+# round 8: ~180 earlier ideas; agents organised by API surface (traits, encodings, field traits, engine, hashing pipeline,
+# purity) and told in a paragraph which operand classes and usage patterns the harness drives; ids R8n<n><A|B|C>
+NEEDS.update({
+ "R8n1A": ("C01", "add_assign_mixed skips the Z1 scalings when Z1^2 == 1", "a projective left operand with Z exactly -1 in a mixed addition"),
+ "R8n1B": ("C02", "precomp_3 batch-normalises its three multiples and assembles the affine entries by hand (infinity: false)", "the identity as base point with a scalar bit at position >= 64 on the 3-entry table path"),
+ "R8n1C": ("C02", "Wnaf::base rebuilds the window table only if num_scalars > 0", "hint 0 followed by scalar(): stale table on a reused context, panic on a fresh one"),
+ "R8n2A": ("C04", "G1Compressed::into_affine: one-entry thread-local memo keyed by a 64-bit fingerprint of the 48 bytes", "a valid encoding followed on the same thread by a DIFFERENT string with the same fingerprint (constructed from the hash definition; 2^-64 by chance)"),
+ "R8n2B": ("C19", "Fq12::deserialize clears the top three bits of every 48-byte slot before parsing", "a coefficient c + j*2^381 with c < q"),
+ "R8n2C": ("C04", "infinity payload test masks the three top bits of every 48-byte slot after the first", "an infinity encoding with stray bits only in the top three bits of byte 48 (96, 144)"),
+ "R8n3A": ("C09", "Fq12::mul_assign 'equal operands => square' fast path compares c0 twice", "two different operands with identical c0 halves, e.g. x * conj(x)"),
+ "R8n3B": ("C09", "Fq6::mul_assign equality fast path compares self.c2 with other.c1", "left (a, b, b), right (a, b, x) with x != b"),
+ "R8n3C": ("C09", "Fq2::mul_assign equality fast path compares self.c1 with other.c0", "left a(1+u), right with real part a"),
+ "R8n4A": ("C12", "Fq12::inverse fast path for elements whose Fq6 norm lies in Fq2 scales c1.c2 twice", "Fq4 elements a + b v w and Fq2-multiples of unitary elements"),
+ "R8n4B": ("C11", "miller_loop groups pairs by pointer identity of the G2Prepared object; the identity filter breaks the index alignment", "a G1 identity paired with a prepared G2 object that a later non-trivial pair references again"),
+ "R8n4C": ("C12", "Fq6::inverse fast path for a norm in the prime field builds the third coefficient from the wrong cofactor", "elements of the cubic subfield Fq3 (not a coefficient pattern) and Fq-multiples of norm-one elements"),
+ "R8n5A": ("C14", "map2_to_curve compares the affine x of the two images after the isogeny and short-cuts to 2P or O by sgn0 of the inputs", "SSWU images that differ by a rational kernel point of the 11-isogeny: equal / opposite only on the target curve"),
+ "R8n5B": ("C13", "XOF output read in 4096-byte pages with a loop that skips the last full page", "a requested length that is a positive multiple of 4096"),
+ "R8n5C": ("C13", "XMD hashes the block-rounded length into b_0", "any request that is not a multiple of the digest size"),
+ "R8n6A": ("C20", "miller_loop folds pairs that reference the same G2Prepared object (ptr::eq) into (P1+P2, Q)", "two pairs sharing one prepared object: the raw Miller value depends on aliasing (reduced pairings stay right)"),
+ "R8n6B": ("C02", "mul_precomp_3 keeps its 16-entry table in a thread-local RefCell borrowed across other.into()", "a caller-defined scalar type whose Into<FrRepr> itself calls mul_precomp_3: BorrowMutError panic"),
+ "R8n6C": ("C04", "infinity check scans the buffer with align_to::<u64>() and ignores the unaligned tail", "an encoding object at a misaligned address with dirty bytes among its last bytes"),
+})
+def _r8src(n):
+    return "/tmp/mut8/%s/_out/%s" % (n[2:4], n[4])
+SRC_OVERRIDE.update({n: _r8src(n) for n in NEEDS if n.startswith("R8")})
+
 
 def first_line(path, pat):
     try:
@@ -295,6 +321,10 @@ def main():
             meta["rejected_because"] = ("the triggering points (y sharing its top limb with (q-1)/2) can only be constructed outside the order-r subgroup "
                                         "(choose y, take a cube root): outside the domain of C05 / C19; inside the subgroup the trigger has probability 2^-60 "
                                         "per point and cannot be constructed. Kept only as a record.")
+        if name == "R8n2A":
+            meta["not_detected_because"] = ("the second string must collide with the first under a 64-bit fingerprint that only the changed code defines; "
+                                            "no execution the checks produce (or could produce without reading that hash) contains such a pair, and every "
+                                            "observable result on all other histories is unchanged: out of reach for runtime monitoring (DESIGN section 14)")
         if name == "C05A":
             meta["kept"] = False
             meta["rejected_because"] = ("the triggering points (y.c1 = 0) exist only outside the order-r subgroup, so the property as stated "
